@@ -5,8 +5,7 @@
   output line:  H <k> then k hits  seg:onSurf:s:time:x0,...,x5
   The Hermite pair of the model is instantiated with the terms traced from the current source (Gen/C15.lean).
 -/
-import HitenModel.Core.C15
-import HitenModel.Gen.C15
+import HitenModel.Lemmas.C15Gen
 open HitenModel HitenModel.C15
 
 def parseRat (s : String) : Rat :=
@@ -16,11 +15,6 @@ def parseRat (s : String) : Rat :=
   | _ => 0
 
 def showRat (r : Rat) : String := if r.den == 1 then toString r.num else toString r.num ++ "/" ++ toString r.den
-
-def genHerm : Herm :=
-  { H := fun s y0 y1 d0 d1 dt => evalQ (env6 s y0 y1 d0 d1 dt) Gen.C15.hermite
-    H' := fun s y0 y1 d0 d1 dt => evalQ (env6 s y0 y1 d0 d1 dt) Gen.C15.hermiteDer
-    Hs := fun s t0 t1 t2 t3 x0 x1 x2 x3 => evalQ (env13 s t0 t1 t2 t3 0 0 0 0 x0 x1 x2 x3) Gen.C15.cubState0I }
 
 def takeSamples : Nat → List Rat → List Sample
   | 0, _ => []
@@ -53,7 +47,7 @@ def handle (line : String) : String :=
 partial def loop (h : IO.FS.Stream) : IO Unit := do
   let line ← h.getLine
   if line.isEmpty then return ()
-  let l := line.trimRight
+  let l := (line.splitOn "\n").headD ""
   if l.isEmpty then loop h else
     IO.println (handle l)
     loop h
